@@ -59,7 +59,7 @@ func Verif_C01_sequence() {
 	for s := 0; s < steps; s++ {
 		var opt int
 		if s == 0 {
-			opt = verifCase(18)
+			opt = verifCase(6)*3 + verifChoose("step0", 3)
 		} else {
 			opt = verifChoose("step", 18)
 		}
